@@ -195,7 +195,9 @@ def gen_history(rng, n, etags):
             p = rng.choice([c, c[:1], c, c + (22,), (rng.choice([20, 21]),)])
             r = ("RMkcol", p, x)
         elif k < 0.17:
-            x = rng.choice([("XNone",), ("XNone",), ("XProps", ("TRNone",), [(1, 0), (3, 1)]), ("XBad",)])
+            x = rng.choice([("XNone",), ("XNone",), ("XProps", ("TRNone",), [(1, 0), (3, 1)]), ("XBad",),
+                            # a body that names another resource type: MKCALENDAR still makes a calendar
+                            ("XProps", ("TRSet", "TAdr"), []), ("XProps", ("TRSet", "TNone"), [(1, 1)]), ("XProps", ("TRSet", "TCal"), [])])
             r = ("RMkcalendar", rng.choice([c, c, c + (21,)]), x)
         elif k < 0.42:
             card = rng.random() < 0.25
@@ -378,6 +380,11 @@ def directed_cases():
                "on-item": cal + (100,)}[where]
         reqs.append((meth, tgt, ("XNone",)))
         reqs += observe((10,), cal)
+        out.append((open_world(), hist(reqs)))
+    # --- MKCOL / MKCALENDAR with a resource type in the body, then an upload of each kind into the result
+    for meth, treq in itertools.product(("RMkcol", "RMkcalendar"), (("TRSet", "TAdr"), ("TRSet", "TNone"), ("TRSet", "TCal"), ("TRRemove",), ("TRNone",))):
+        reqs = [(meth, cal2, ("XProps", treq, [(1, 1)])), put(cal2 + (100,), ev(0)), put(cal2 + (200,), cd(1))]
+        reqs += observe((10,), cal2)
         out.append((open_world(), hist(reqs)))
     # --- PUT of a whole collection: target state x permit_overwrite x body
     for state, permit, body in itertools.product(("absent", "calendar-with-items", "address-book", "plain"), (True, False), ("cal2", "cards2", "empty", "bad")):
